@@ -1,5 +1,21 @@
 package main
 
+import "encoding/json"
+
+func caseFromJSON(s string) *Case {
+	var c Case
+	if err := json.Unmarshal([]byte(s), &c); err != nil {
+		panic(err)
+	}
+	return &c
+}
+
+// DECIMAL literal = DECIMAL product in a join condition: "Out of range value for column of Decimal type"
+const decLiteralProduct = `{"tables":[{"types":["int"],"pk":-1,"rows":[[{"k":"int","i":-1}],[{"k":"int","i":-1}],[{"k":"int"}],[{"k":"int","i":1}],[{"k":"int","i":5}]]}],"query":{"k":"select","src":{"k":"table"},"wh":{"op":"const","v":{"k":"int","i":1}},"proj":[{"op":"scalar","q":{"k":"group","src":{"k":"join","jk":"left","l":{"k":"table"},"r":{"k":"table"},"on":{"op":"cmp","o":"=","a":{"op":"const","v":{"k":"dec","i":200,"s":2}},"b":{"op":"arith","o":"*","a":{"op":"const","v":{"k":"dec","i":200,"s":2}},"b":{"op":"col","i":1}}}},"wh":{"op":"const","v":{"k":"int","i":1}},"proj":[{"op":"col"}],"aggs":[{"f":"max","e":{"op":"const","v":{"k":"dec","i":150,"s":2}}}],"hav":{"op":"const","v":{"k":"int","i":1}}}}]},"ordered":false}`
+
+// IN over a subquery whose join tree contains an outer join with a statically false ON: "unable to find field with index"
+const inOverFalseOuterJoin = `{"tables":[{"types":["int","str","int"],"pk":-1,"rows":[[{"k":"int","i":1},{"k":"null"},{"k":"int"}],[{"k":"int","i":1},{"k":"null"},{"k":"int"}]]},{"types":["int","str","dec"],"idx":[1],"pk":-1,"rows":[[{"k":"int","i":5},{"k":"null"},{"k":"dec","i":150,"s":2}]]}],"query":{"k":"group","src":{"k":"join","jk":"cross","l":{"k":"table","t":1},"r":{"k":"table"}},"wh":{"op":"inq","a":{"op":"const","v":{"k":"int","i":1}},"q":{"k":"group","src":{"k":"table","t":1},"wh":{"op":"inq","a":{"op":"const","v":{"k":"int","i":1}},"q":{"k":"select","src":{"k":"join","jk":"inner","l":{"k":"table"},"r":{"k":"join","jk":"right","l":{"k":"table"},"r":{"k":"table","t":1},"on":{"op":"const","v":{"k":"int"}}},"on":{"op":"or","a":{"op":"cmp","o":"<","a":{"op":"const","v":{"k":"null"}},"b":{"op":"col","i":7}},"b":{"op":"col","i":3}}},"wh":{"op":"const","v":{"k":"int","i":1}},"proj":[{"op":"const","v":{"k":"int","i":1}}]}},"proj":[{"op":"const","v":{"k":"int","i":1}}],"keys":[{"op":"col","i":1}],"aggs":[{"f":"max","e":{"op":"const","v":{"k":"null"}}}],"hav":{"op":"const","v":{"k":"int","i":1}}}},"proj":[{"op":"const","v":{"k":"int","i":1}}],"keys":[{"op":"col","i":3}],"aggs":[{"f":"avg","e":{"op":"const","v":{"k":"int","i":1}}},{"f":"min","e":{"op":"const","v":{"k":"int","i":1}}}],"hav":{"op":"const","v":{"k":"int","i":1}}},"ordered":false}`
+
 // findingCorpus: one minimal failing input per known finding (findings/C02.json), re-run first on every check.
 func findingCorpus() []*Case {
 	iv := func(vs ...interface{}) [][]Val {
@@ -35,6 +51,8 @@ func findingCorpus() []*Case {
 		{Tables: []Table{one, empty}, Q: sel(tbl(0), exists(gagg(tbl(1), tru(), "max", col(0, 0))), col(0, 0))},
 		// IN over an aggregate without GROUP BY whose input is empty
 		{Tables: []Table{one, empty}, Q: sel(tbl(0), &Expr{Op: "inq", A: ci(0), Q: gagg(tbl(1), konst(null()), "countd", col(1, 0))}, col(0, 0))},
+		// 0.00 IN (SELECT SUM(0.00) FROM t): the aggregate's DECIMAL does not match the literal
+		{Tables: []Table{one}, Q: sel(tbl(0), &Expr{Op: "inq", A: cd(0), Q: gagg(tbl(0), tru(), "sum", cd(0))}, col(0, 0))},
 		// EXISTS (... LIMIT 0)
 		{Tables: []Table{one}, Q: sel(tbl(0), exists(&Query{K: "order", Q: sel(tbl(0), tru(), col(0, 0)), OKeys: []OKey{{I: 0}}, HasLim: true, Lim: 0}), col(0, 0))},
 		// EXISTS over a LEFT JOIN whose condition is false: the left rows are still there
@@ -73,6 +91,41 @@ func findingCorpus() []*Case {
 		{Tables: []Table{pk}, Q: sel(join("inner", tbl(0), tbl(0), cmp("=", col(0, 0), col(0, 3))), tru(), col(0, 0), col(0, 3))},
 		// UNION of SUM(int) (DOUBLE in the engine) with an INT column yields text
 		{Tables: []Table{one}, Q: &Query{K: "setop", SOp: "union", All: true, L: gagg(tbl(0), tru(), "sum", col(0, 0)), R: sel(tbl(0), tru(), col(0, 0))}},
+		// an uncorrelated EXISTS filter inside a correlated subquery is hoisted and the subquery is then cached across outer rows
+		{Tables: []Table{{Types: []string{"int"}, PK: -1, Rows: iv(5, nil)}, {Types: []string{"int"}, PK: -1, Rows: iv(7)}},
+			Q: sel(tbl(0), not(&Expr{Op: "inq", A: ci(1), Q: sel(tbl(1), exists(sel(tbl(0), tru(), ci(1))), col(1, 0))}), col(0, 0))},
+		// scalar subquery (one of several select items) over a set-operation derived table with a NULL-literal column
+		// against a typed column: "unable to find field" / slice-bounds panic
+		{Tables: []Table{{Types: []string{"int", "int", "int"}, PK: -1, Rows: [][]Val{ints(3, 4, 1)}}}, Q: sel(tbl(0), tru(), ci(1), &Expr{Op: "scalar", Q: gagg(
+			&Query{K: "setop", SOp: "union", L: sel(tbl(0), tru(), konst(null()), cs("b")), R: sel(tbl(0), tru(), cd(150), cs("a"))}, tru(), "max", col(0, 0))}, ci(1))},
+		{Tables: []Table{{Types: []string{"int", "int", "int"}, PK: -1, Rows: [][]Val{ints(3, 4, 1)}}}, Q: sel(tbl(0), tru(), ci(1), &Expr{Op: "scalar", Q: gagg(
+			&Query{K: "setop", SOp: "intersect", L: &Query{K: "group", Src: join("inner", tbl(0), tbl(0), ci(1)), Wh: tru(), Aggs: []Agg{{F: "min", E: konst(null())}}, Hav: tru(), Proj: []*Expr{col(0, 0), cs("b")}},
+				R: sel(tbl(0), tru(), cd(150), cs("a"))}, tru(), "max", col(0, 0))}, ci(1))},
+		// INT IN (subquery projecting a DECIMAL) never matches
+		{Tables: []Table{one}, Q: sel(tbl(0), &Expr{Op: "inq", A: ci(1), Q: sel(tbl(0), tru(), cd(100))}, col(0, 0))},
+		// an inner join with a false ON above a LEFT JOIN returns rows
+		{Tables: []Table{{Types: []string{"int"}, PK: -1, Rows: iv(1)}, {Types: []string{"int"}, PK: -1, Rows: iv(-1, 1)}},
+			Q: sel(join("inner", join("left", tbl(1), tbl(0), ci(1)), tbl(0), &Expr{Op: "and", A: cmp("=", col(0, 0), col(0, 2)), B: konst(null())}), tru(), ci(1))},
+		// ORDER BY ... DESC over an equi-join of two indexed columns (reverse merge join) duplicates rows
+		{Tables: []Table{{Types: []string{"int", "int"}, PK: -1, Idx: []int{0}, Rows: [][]Val{ints(nil, 3), ints(3, -1)}},
+			{Types: []string{"int", "int"}, PK: -1, Idx: []int{0, 1}, Rows: [][]Val{ints(nil, 5), ints(7, 3)}}}, Ordered: true,
+			Q: &Query{K: "order", Q: sel(join("inner", tbl(0), tbl(1), cmp("=", col(0, 0), col(0, 3))), tru(), col(0, 0)), OKeys: []OKey{{I: 0, Desc: true}}}},
+		// EXCEPT drops rows whose value is the empty string
+		{Tables: []Table{{Types: []string{"str"}, PK: -1, Rows: [][]Val{{{K: "str", Str: ""}}, {{K: "str", Str: "x"}}}}},
+			Q: &Query{K: "setop", SOp: "except", L: sel(tbl(0), tru(), col(0, 0)), R: sel(tbl(0), cmp("=", col(0, 0), cs("zz")), col(0, 0))}},
+		caseFromJSON(inOverFalseOuterJoin),
+		// a scalar subquery whose only correlation sits inside an EXISTS filter: the EXISTS is hoisted and the subquery cached
+		{Tables: []Table{{Types: []string{"int"}, PK: -1, Idx: []int{0}, Rows: iv(nil, 0)}},
+			Q: sel(tbl(0), tru(), &Expr{Op: "scalar", Q: &Query{K: "order", Q: sel(tbl(0), exists(sel(tbl(0), cmp("<=", col(2, 0), ci(0)), ci(1))), cd(150)),
+				OKeys: []OKey{{I: 0}}, HasLim: true, Lim: 1}})},
+		caseFromJSON(decLiteralProduct),
+		// x IN (subquery whose select expression is an outer column only)
+		{Tables: []Table{{Types: []string{"int"}, PK: -1, Rows: iv(3, 1)}, {Types: []string{"int"}, PK: -1, Rows: iv(nil)}},
+			Q: sel(tbl(0), &Expr{Op: "inq", A: ci(1), Q: sel(tbl(1), col(1, 0), col(1, 0))}, col(0, 0))},
+		// NULL IN (correlated subquery that is empty) is FALSE, the engine says NULL
+		{Tables: []Table{{Types: []string{"int"}, PK: -1, Rows: iv(nil)}, {Types: []string{"int"}, PK: -1, Rows: iv(nil)}},
+			Q: sel(tbl(0), &Expr{Op: "not", A: &Expr{Op: "inq", A: konst(null()), Q: sel(tbl(1),
+				&Expr{Op: "inq", A: col(1, 0), Q: sel(tbl(1), tru(), ci(3))}, ci(5))}}, ci(1))},
 		// -0.00: (-1.00) * 0 is not recognised as 0.00
 		{Tables: []Table{{Types: []string{"int"}, PK: -1, Rows: iv(0)}}, Q: sel(tbl(0),
 			&Expr{Op: "in", A: &Expr{Op: "arith", O: "*", A: cd(-100), B: col(0, 0)}, L: []*Expr{cd(0)}}, col(0, 0))},
